@@ -21,7 +21,7 @@ def shards(tier, seed):
     q = tier == 'quick'
     # uninitialised reads are invisible to ASan/UBSan: a small share of the workload runs under valgrind memcheck
     out += [{'name': f'valgrind{k}', 'variant': 'vg', 'build': 'vg', 'valgrind': True, 'cases': 10 if q else 250,
-             'budget_s': 30 if q else 700, 'timeout': 1200, 'kind': 'synthetic'} for k in range(1 if q else 4)]
+             'budget_s': 30 if q else 600, 'timeout': 3000, 'kind': 'synthetic'} for k in range(1 if q else 4)]
     return out
 
 
@@ -45,7 +45,17 @@ def gen(rng, spec):
     return search.gen_case(rng, max_n=6)
 
 
+def gen_vg(rng, spec):
+    # under memcheck a single search step costs ~50x: keep every case small, so that the shard's time budget (checked after
+    # every case) is honoured and the wall-clock watchdog stays far away
+    case = gen(rng, spec)
+    case['config']['max_step'] = min(case['config']['max_step'], 3000)
+    return case
+
+
 def run(spec, R):
+    if spec.get('valgrind'):
+        return SC.run(ID, PROP, spec, R, gen_vg, lambda s, c: s.get('parsed') and max(len(x[0]) for x in c['sentences']) >= 2)
     SC.run(ID, PROP, spec, R, gen, lambda s, c: s.get('parsed') and max(len(x[0]) for x in c['sentences']) >= 2)
 
 
